@@ -17,7 +17,16 @@ INVOKE, CALLBACK = 0, 1
 
 
 def conc(v):
-    return v if isinstance(v, int) else symex.simp(v).as_long()
+    """concrete value of a logged field; a field that is not determined by the inputs (e.g. an uninitialised slot handed to a
+    hook) is returned as a descriptive string, which compares unequal to every expected value"""
+    if isinstance(v, int):
+        return v
+    s = symex.simp(v)
+    return s.as_long() if z3.is_bv_value(s) else "undetermined(%s)" % str(s)[:60]
+
+
+def hx(v):
+    return hex(v) if isinstance(v, int) else str(v)
 
 
 def install_exc(eng):
@@ -46,13 +55,13 @@ def well_nested(seq, state):
     crossings = []
     for d, kind, ident, s in seq:
         if s != state:
-            return False, "notification carries transition state %x, expected %x" % (s, state), crossings
+            return False, "notification carries transition state %s, expected %s" % (hx(s), hx(state)), crossings
         if d == "in" and kind == INVOKE:
             stack.append(("inv", ident))
             crossings.append((INVOKE, ident))
         elif d == "out" and kind == INVOKE:
             if not stack or stack[-1] != ("inv", ident):
-                return False, "'out' for invocation %x does not match the innermost open crossing %s" % (ident, stack[-1:] or "none"), crossings
+                return False, "'out' for invocation %s does not match the innermost open crossing %s" % (hx(ident), stack[-1:] or "none"), crossings
             stack.pop()
         elif d == "out" and kind == CALLBACK:
             if not stack or stack[-1][0] != "inv":
@@ -61,7 +70,7 @@ def well_nested(seq, state):
             crossings.append((CALLBACK, ident))
         elif d == "in" and kind == CALLBACK:
             if not stack or stack[-1] != ("cb", ident):
-                return False, "'in' for callback %x does not match the innermost open crossing %s" % (ident, stack[-1:] or "none"), crossings
+                return False, "'in' for callback %s does not match the innermost open crossing %s" % (hx(ident), stack[-1:] or "none"), crossings
             stack.pop()
         else:
             return False, "unknown notification", crossings
@@ -106,7 +115,7 @@ def check_tree(ctx):
             first_inv = [c for c in crossings if c[0] == INVOKE]
             want = conc(mark[2]) if mval(m, shape) == 0 else conc(mark[3])
             if not bad and first_inv and first_inv[0][1] != want:
-                bad = "the invocation is announced with function identity %x, expected %x" % (first_inv[0][1], want)
+                bad = "the invocation is announced with function identity %s, expected %s" % (hx(first_inv[0][1]), hx(want))
         if bad:
             ctx.violations.append({"check": ctx.name, "kernel": "k_tree", "violated": bad, "inputs": {"shape": mval(m, shape), "x": hex(mval(m, x)), "exceptional": exceptional},
                                    "outcome": q.status, "log": [str(s) for s in seq][:12], "replayed": None})
